@@ -188,10 +188,14 @@ def find_out_dir():
     if forced:
         return forced
     os.makedirs(os.path.join(VERIF, ".cache"), exist_ok=True)
-    env = dict(os.environ, CARGO_NET_OFFLINE="true", CARGO_TARGET_DIR=TARGET_FFI, RUSTFLAGS="--cfg dnp3_verif")
+    # the guard cfg is passed to the dnp3-ffi crate only (`cargo rustc ... -- --cfg dnp3_verif`), so that
+    # dnp3 itself is built exactly as a production dependency; same command as tools/props/c20.py
+    env = dict(os.environ, CARGO_NET_OFFLINE="true", CARGO_TARGET_DIR=TARGET_FFI)
+    env.pop("RUSTFLAGS", None)
     with open(os.path.join(VERIF, ".cache", "cargo_ffi.lock"), "w") as lf:
         fcntl.flock(lf, fcntl.LOCK_EX)
-        p = subprocess.run(["cargo", "test", "-p", "dnp3-ffi", "--lib", "--no-run", "--offline", "--message-format=json"],
+        p = subprocess.run(["cargo", "rustc", "-p", "dnp3-ffi", "--lib", "--profile", "test", "--offline",
+                            "--message-format=json", "--", "--cfg", "dnp3_verif"],
                            cwd=REPO, env=env, stdout=subprocess.PIPE, stderr=subprocess.PIPE, text=True, timeout=3000)
     out_dir = None
     errs = []
@@ -1298,6 +1302,11 @@ def inverse_pairs(model):
 
 
 def main():
+    # the copy of the tables read by tools/props/c20.py: removed first, so that a failing translator
+    # leaves no stale tables behind (tools/driver.py installs the new file only on success)
+    stale = os.path.join(VERIF, ".cache", "gen", "FfiTables.json")
+    if os.path.exists(stale):
+        os.remove(stale)
     enums, out_dir = load_enums()
     # enums declared by the binding crate itself
     files = []
